@@ -1,6 +1,42 @@
 //! Uniform access to the two parameter sets through the public API (+ hook accessors).
 use falcon_rust::{falcon1024, falcon512, verif};
 
+#[cfg(feature = "sync-keys")]
+pub trait MaybeSync: Sync {}
+#[cfg(feature = "sync-keys")]
+impl<T: Sync> MaybeSync for T {}
+#[cfg(not(feature = "sync-keys"))]
+pub trait MaybeSync {}
+#[cfg(not(feature = "sync-keys"))]
+impl<T> MaybeSync for T {}
+
+/// One object shared by several threads (Arc) -- or, without the `sync-keys` feature, one clone per thread.
+#[cfg(feature = "sync-keys")]
+pub type Shared<T> = std::sync::Arc<T>;
+#[cfg(feature = "sync-keys")]
+pub fn share<T>(x: T) -> Shared<T> {
+    std::sync::Arc::new(x)
+}
+#[cfg(not(feature = "sync-keys"))]
+pub struct Shared<T>(T);
+#[cfg(not(feature = "sync-keys"))]
+impl<T: Clone> Clone for Shared<T> {
+    fn clone(&self) -> Self {
+        Shared(self.0.clone())
+    }
+}
+#[cfg(not(feature = "sync-keys"))]
+impl<T> std::ops::Deref for Shared<T> {
+    type Target = T;
+    fn deref(&self) -> &T {
+        &self.0
+    }
+}
+#[cfg(not(feature = "sync-keys"))]
+pub fn share<T>(x: T) -> Shared<T> {
+    Shared(x)
+}
+
 pub trait Fv: 'static {
     const N: usize;
     const LOGN: u8;
@@ -9,9 +45,9 @@ pub trait Fv: 'static {
     const SK_LEN: usize;
     const BOUND: i64;
     const SIG_HDR: u8;
-    type Sk: Clone + Send + Sync + PartialEq + 'static;
-    type Pk: Clone + Send + Sync + PartialEq + 'static;
-    type Sig: Clone + Send + Sync + PartialEq + 'static;
+    type Sk: Clone + Send + MaybeSync + PartialEq + 'static;
+    type Pk: Clone + Send + MaybeSync + PartialEq + 'static;
+    type Sig: Clone + Send + MaybeSync + PartialEq + 'static;
     fn keygen(seed: [u8; 32]) -> (Self::Sk, Self::Pk);
     fn sign(m: &[u8], sk: &Self::Sk) -> Self::Sig;
     fn verify(m: &[u8], sig: &Self::Sig, pk: &Self::Pk) -> bool;
